@@ -13,7 +13,7 @@ for d in "${dirs[@]}"; do
   out=$(/verif/check.sh $prop quick 2>&1); rc=$?
   all=$(/verif/bin/rbverify -all 2>&1)
   git checkout -q -- . ; git clean -fdq
-  rules=$(echo "$all" | grep "  FINDING" | grep -v "V2|(\*roaring.bitmapContainer).validate|rejects cardinality == 4096\|PC1|(\*roaring64.BSI).MarshalBinary" | sed -E 's/^  FINDING ([^|]+)\|.*/\1/' | sort -u | tr '\n' ' ')
+  rules=$(echo "$all" | grep "  FINDING" | grep -v "V2|(\*roaring.bitmapContainer).validate|rejects cardinality == 4096\|PC1|(\*roaring64.BSI).MarshalBinary\|L8|(\*roaring.roaringArray).readFrom|run list taken from the input#1" | sed -E 's/^  FINDING ([^|]+)\|.*/\1/' | sort -u | tr '\n' ' ')
   viol=$(echo "$out" | grep -c "^VIOLATION")
   python3 - "$d" "$prop" "$rc" "$viol" "$rules" <<'PY'
 import json,sys
